@@ -66,7 +66,7 @@ def r_inventory(ctx, config='default'):
         on_path = p in reach
         ok = rv is not None and len(lst) <= rv[0]
         ctx.ob(rid, 'hash-iteration:%s' % p, ok, 'hash iteration in %s (%d site(s), %s compile path): %s' % (p, len(lst), 'on the' if on_path else 'off the', rv[1] if rv else 'NOT REVIEWED - order of a hash map may reach the output'), fn.where(lst[0][1]))
-    ctx.floor(rid, 'hash iteration sites (%s)' % config, len(sites), 12)
+    ctx.floor(rid, 'hash iteration sites (%s)' % config, len(sites), 8)
     # sorted printing
     for name in ('WitnessValues', 'Arguments'):
         fn = ctx.anchor(fx, '<witness::%s as std::fmt::Display>::fmt' % name)
@@ -116,7 +116,7 @@ def r_cli(ctx, config='default'):
     ok = ok and all(not any(l == 'Err' for w, l in p.conds) for p in okret)
     ctx.ob(rid, 'main:exit', ok, 'main exits with status 1 after printing the error exactly when run() = Err', mainf.where())
     # run
-    exits = [c for bid, c, t in run.calls() if c.endswith('process::exit') or c.endswith('process::abort')]
+    exits = [c for bid, c, t in deep_calls(fx, run) if c.endswith('process::exit') or c.endswith('process::abort')]
     ctx.ob(rid, 'run:no-exit', not exits, 'run() never exits the process itself', run.where())
     n_ok = 0
     for kind, p, ret in Explorer_paths(ctx, run, 'simc', follow_break=False):
@@ -137,7 +137,7 @@ def r_cli(ctx, config='default'):
     ctx.floor(rid, 'commit printing path', n_ok, 1)
     # unwraps in run: only on clap's required argument
     uw = []
-    for bid, c, t in run.calls():
+    for bid, c, t in deep_calls(fx, run):
         if panics.UNWRAPS.match(c):
             uw.append((c, t['line']))
     for cl in fx.find(r'^run::\{closure#\d+\}', 'simc'):
